@@ -41,7 +41,7 @@ GenNsInit == {Empty, [l \in {"s.host"} |-> "s:abc"]}
 \* multi-key lists (keys declared non-alphabetically) next to a single-key list and a plain leaf
 GenMkeyLeaf == {"p1.zone", "p1.app", "p1.weight", "p2.zone", "p2.app", "p2.weight", "pl.a"}
 GenMkeyInit == {Empty, [l \in {"pl.s"} |-> "s:b"]}
-GenMustxLeaf == {"pl.lim", "pl.lcheck", "pl.gcheck", "g.limit", "pl.a"}
+GenMustxLeaf == {"pl.lim", "pl.lcheck", "pl.gcheck", "g.limit", "pl.ml"}
 GenMustxInit == {Empty, [l \in {"pl.s"} |-> "s:b"]}
 GenValidLeaf == Fam_valid
 GenValidInit == {Empty, [l \in {"s.host", "pl.n"} |-> IF l = "s.host" THEN "s:abc" ELSE "u:1"],
